@@ -110,11 +110,28 @@ func nameOfLen(n int, c byte) string {
 	return string(b)
 }
 
+// utf8Name: a name of n bytes made of two-byte characters (n/2 characters; one ASCII byte in front if n is odd)
+func utf8Name(n int) string {
+	s := ""
+	if n%2 == 1 {
+		s = "u"
+	}
+	for len(s) < n {
+		s += "\u00e9"
+	}
+	return s
+}
+
 func nameAlphabet() []fsx.Op {
 	var al []fsx.Op
 	al = append(al, fsx.Op{K: "CREATE", H: "root", N: "a"})
+	names := []string{}
 	for _, l := range []int{0, 1, 2, 111, 112, 113, 255, 256} {
-		n := nameOfLen(l, 'n')
+		names = append(names, nameOfLen(l, 'n'))
+	}
+	// the limit counts bytes, not characters: 112, 113, 114 and 224 bytes in two-byte characters
+	names = append(names, utf8Name(112), utf8Name(113), utf8Name(114), utf8Name(224))
+	for _, n := range names {
 		al = append(al,
 			fsx.Op{K: "CREATE", H: "root", N: n},
 			fsx.Op{K: "MKDIR", H: "root", N: n},
